@@ -201,7 +201,21 @@ func c06Case(c *hx.Ctx, r *hx.RNG, idx int64) {
 		ub, vb := wordsToBig(u), wordsToBig(v)
 		ucopy := append([]decimal.Word(nil), u...)
 		vcopy := append([]decimal.Word(nil), v...)
-		q, rem := decimal.VerifDiv(nil, nil, u, v)
+		// destination buffers: nil, or buffers that held longer values before (valid words, enough capacity to be reused)
+		var zq, zr []decimal.Word
+		if r.Chance(45) {
+			zq = genWords(r, len(u)+r.Range(1, 8))
+			for i := range zq {
+				if zq[i] == 0 {
+					zq[i] = decimal.Word(wb - 1)
+				}
+			}
+			c.Classes["div-stale-quotient-buffer"]++
+		}
+		if r.Chance(30) {
+			zr = genWords(r, len(u)+r.Range(2, 8))
+		}
+		q, rem := decimal.VerifDiv(zq, zr, u, v)
 		c.Eval(r.U64(), len(v) > 1, "div/"+cls+"/"+lenBucket(len(v)))
 		if c.WantSample("div/" + cls) {
 			c.Sample("div/"+cls, fmt.Sprintf("div u=%s v=%s %s", wstr(ucopy), wstr(vcopy), thr))
